@@ -190,6 +190,23 @@ def waltraceOp : Op := fun args =>
     "M:" ++ " ".intercalate (go {} ps [])
   | _ => badArgs
 
-def ops : OpTable := [("walcrash", walcrashOpWith false), ("walcrash01", walcrashOpWith true), ("waltrace", waltraceOp)]
+/-- trace validation (C05): is a recorded sequence of effect kinds a path of the model, i.e. a
+    concatenation of event traces  flush = W⁶ F P*,  checkpoint = W S W,  rotation = [W S W] T W F ? -/
+def acceptKinds : Nat → List Char → Bool
+  | 0, _ => false
+  | _, [] => true
+  | fuel + 1, 'W' :: 'S' :: 'W' :: 'T' :: 'W' :: 'F' :: rest => acceptKinds fuel rest
+  | fuel + 1, 'W' :: 'S' :: 'W' :: rest => acceptKinds fuel rest
+  | fuel + 1, 'T' :: 'W' :: 'F' :: rest => acceptKinds fuel rest
+  | fuel + 1, 'W' :: 'W' :: 'W' :: 'W' :: 'W' :: 'W' :: 'F' :: rest =>
+    acceptKinds fuel (rest.dropWhile (· == 'P'))
+  | _, _ => false
+
+def walacceptOp : Op := fun args =>
+  match args with
+  | [k] => if k == "-" || acceptKinds (k.length + 1) k.toList then "M:accepted" else "M:rejected"
+  | _ => badArgs
+
+def ops : OpTable := [("walaccept", walacceptOp), ("walcrash", walcrashOpWith false), ("walcrash01", walcrashOpWith true), ("waltrace", waltraceOp)]
 
 end Mkts.Driver.Wal
